@@ -138,6 +138,10 @@ class AutorefMachine(Machine):
                     acts.append(('exist', i, y))
                     for j in idx:
                         acts.append(('let_fn', i, x, j))
+                        if len(self.names) >= 2:
+                            # constants (as Functions) mixed with a function, both dict orders
+                            acts.append(('let_mixed', i, x, j, 0))
+                            acts.append(('let_mixed', i, x, j, 1))
                 for k in range(len(EXPRS)):
                     acts.append(('add_expr', k))
                 acts.append(('cube', self.names[0], self.names[-1]))
@@ -169,7 +173,7 @@ class AutorefMachine(Machine):
         out = list(acts)
         for k in self.forced:
             for a in acts:
-                if a[0] in ('var', 'and', 'or', 'xor', 'ite', 'let_fn', 'let_ren', 'exist',
+                if a[0] in ('var', 'and', 'or', 'xor', 'ite', 'let_fn', 'let_mixed', 'let_ren', 'exist',
                             'add_expr', 'cube', 'copy_roundtrip', 'let_const'):
                     out.append(('F%d' % k,) + a)
         return out
@@ -231,6 +235,14 @@ class AutorefMachine(Machine):
             _, i, x, j = a
             new = bdd.let({x: fns[j]}, fns[i])
             want = U.compose(masks[i], {x: masks[j]})
+        elif kind == 'let_mixed':
+            _, i, x, j, flip = a
+            y = self.names[(self.names.index(x) + 1) % len(self.names)]
+            const = bdd.false if flip else bdd.true
+            d = {y: fns[j], x: const} if flip else {x: const, y: fns[j]}
+            new = bdd.let(d, fns[i])
+            want = U.compose(masks[i], {x: 0 if flip else U.full, y: masks[j]})
+            del d, const
         elif kind == 'exist':
             _, i, x = a
             new = bdd.exist([x], fns[i])
